@@ -72,6 +72,11 @@ struct XalanListIteratorBase
 
     typedef XalanListIteratorBase<XalanListIteratorTraits<value_type>, Node> iterator;
 
+    XalanListIteratorBase() :
+        currentNode(0)
+    {
+    }
+
     XalanListIteratorBase(Node& node) : 
         currentNode(&node)
     {
@@ -240,28 +245,33 @@ public:
         return *m_memoryManager;
     }
 
+    // A list that has never held an element has no head node.  For
+    // such a list begin() and end() return the same null iterator, so
+    // that iterating, clear(), empty() and size() allocate nothing (they
+    // are used in destructors and other clean-up code, which must not
+    // fail).  The head node is created by the first insertion.
     iterator
     begin()
     {
-        return iterator(*(getListHead().next));
+        return m_listHead == 0 ? iterator() : iterator(*(m_listHead->next));
     }
 
     const_iterator
     begin() const
     {
-        return const_iterator(*(getListHead().next));
+        return m_listHead == 0 ? const_iterator() : const_iterator(*(m_listHead->next));
     }
 
     iterator
     end()
     {
-        return iterator(getListHead());
+        return m_listHead == 0 ? iterator() : iterator(*m_listHead);
     }
 
     const_iterator
     end() const
     {
-        return const_iterator(getListHead());
+        return m_listHead == 0 ? const_iterator() : const_iterator(*m_listHead);
     }
 
     reverse_iterator
@@ -367,7 +377,7 @@ public:
 
         if (pos != toInsert)
         {
-            Node & posNode = pos.node();
+            Node & posNode = positionNode(pos);
             Node & toInsertNode = toInsert.node();
 
             toInsertNode.prev->next = toInsertNode.next;
@@ -393,7 +403,7 @@ public:
 
         if (toInsertFirst != toInsertLast)
         {
-            Node & posNode = pos.node();
+            Node & posNode = positionNode(pos);
             Node & toInsertFirstNode = toInsertFirst.node();
             Node & toInsertLastNode = *(toInsertLast.node().prev);
 
@@ -428,8 +438,17 @@ public:
 
 protected:
 
+    // A null iterator was obtained from this list before it had a
+    // head node, when the only position was end().
+    Node& positionNode(iterator&  pos)
+    {
+        return pos.currentNode == 0 ? getListHead() : pos.node();
+    }
+
     Node& constructNode(const value_type& data, iterator pos)
     {
+        Node&  posNode = positionNode(pos);
+
         Node * newNode = 0;
         Node * nextFreeNode = 0;
         
@@ -450,11 +469,11 @@ protected:
         }
 
         Constructor::construct(&newNode->value, data, *m_memoryManager);
-        new (&newNode->prev) Node*(pos.node().prev);
-        new (&newNode->next) Node*(&(pos.node()));
+        new (&newNode->prev) Node*(posNode.prev);
+        new (&newNode->next) Node*(&posNode);
 
-        pos.node().prev->next = newNode;
-        pos.node().prev = newNode;
+        posNode.prev->next = newNode;
+        posNode.prev = newNode;
         
         m_freeListHeadPtr = nextFreeNode;
         
